@@ -12,12 +12,13 @@ from . import common
 
 
 class WorldCrash(Exception):
-    def __init__(self, stderr, rc, last_cmd, hang=False):
+    def __init__(self, stderr, rc, last_cmd, hang=False, events=None):
         Exception.__init__(self, "world died rc=%s during %r" % (rc, last_cmd))
         self.stderr = stderr
         self.rc = rc
         self.last_cmd = last_cmd
         self.hang = hang
+        self.events = events or []      # events of the fatal command read before death
 
 
 ASAN_ENV = {
@@ -83,7 +84,11 @@ class World:
             raise WorldCrash(self._stderr(), self.p.returncode, line)
         evs = []
         while True:
-            raw = self._readline()
+            try:
+                raw = self._readline()
+            except WorldCrash as wc:
+                wc.events = evs
+                raise
             if not raw:
                 continue
             try:
@@ -172,7 +177,11 @@ class Sim:
 
     # -- commands ---------------------------------------------------------
     def cmd(self, line):
-        evs = self.w.cmd(line)
+        try:
+            evs = self.w.cmd(line)
+        except WorldCrash as wc:
+            self.log.extend(wc.events)
+            raise
         self._absorb(evs)
         return evs
 
